@@ -298,13 +298,11 @@ func evalPathStep(step jparse.Node, data reflect.Value, env *environment, lastSt
 
 	// (What an array constructor makes is one item of the
 	// results, not the results themselves.)
+	// (Nor is the sequence that a name selects from an array
+	// item: its only item can be an array in its own right.)
 	if lastStep && len(results) == 1 && !isCons {
-		res := results[0]
-		if seq, ok := asSequence(res); ok {
-			res = seq.Value()
-		}
-		if jtypes.IsArray(res) {
-			return res, nil
+		if _, isSeq := asSequence(results[0]); !isSeq && jtypes.IsArray(results[0]) {
+			return results[0], nil
 		}
 	}
 
